@@ -27,11 +27,18 @@ func TestC10_ReachableLoads(t *testing.T) {
 		"in-process walk after the transaction returned (cold with respect to SOP's caches: it does not use them)")
 	rapid.Check(t, func(t *rapid.T) {
 		h := txh.GenHistory(t, seqGen)
+		var prev *txh.Reach
 		e, _ := runSequential(t, h, func(e *txh.Env, i int, models []*txh.Model, res txh.TxnResult) {
 			r := txh.ReadDisk(e.Dir)
 			if p := r.AllProblems(); len(p) > 0 {
 				t.Fatalf("after txn %d (%s): %s\n%s", i+1, h.Txns[i], strings.Join(p, "; "), h.Render())
 			}
+			if prev != nil && !res.Committed {
+				if p := r.LostSince(prev); len(p) > 0 {
+					t.Fatalf("after txn %d (%s): %s\n%s", i+1, h.Txns[i], strings.Join(p, "; "), h.Render())
+				}
+			}
+			prev = r
 			if why := r.CheckAgainst(h.Stores, models); why != "" {
 				t.Fatalf("after txn %d (%s): %s\n%s", i+1, h.Txns[i], why, h.Render())
 			}
